@@ -788,6 +788,14 @@ class Generator:
         self.knob_prob = knob_prob
         self.pool_knobs = pool_knobs
         self.allow_partition_size = False
+        # keep ops whose reference compute dies with an *internal* error (not an explicit refusal): profiles with
+        # static oracles (C09) must still see them - a change that breaks a graph must not vanish as "invalid op"
+        self.accept_internal_failures = False
+        # sample() keeps read-only ndarray views (per-partition random states) as operands; dask 2024.3 tokenizes
+        # ndarrays through their pickle header, which changes when such a view is pickled and reloaded
+        # (known finding KF-C16-ndarray-operand-token): profiles comparing names across a pickle switch it off
+        self.allow_sample = True
+        self.suspects = 0
 
     # -- helpers -------------------------------------------------------------
     def _knobs(self, names):
@@ -843,7 +851,12 @@ class Generator:
             kind, cols = describe(coll)
             nparts = coll.npartitions
             known = bool(coll.known_divisions) if kind != "scalar" else True
-            self.ref_compute(coll)
+            try:
+                self.ref_compute(coll)
+            except Exception as e_:
+                if not self.accept_internal_failures or isinstance(e_, (NotImplementedError, ValueError, TypeError)) and not isinstance(e_, (KeyError, IndexError)):
+                    raise
+                self.suspects += 1
             if op.get("knobs") and not self.pool_knobs:
                 # the knobbed spelling must at least construct
                 build_op(op, self.pool, self.tables, use_knobs=True)
@@ -1347,7 +1360,7 @@ class Generator:
         if not m:
             return None
         kind = self.rng.choice(["int", "RandomState", "RandomState"])
-        if self.rng.random() < 0.6:
+        if self.rng.random() < 0.6 or not self.allow_sample:
             op = {"op": "random_split", "src": m.id, "frac": self.rng.choice([[0.5, 0.5], [0.3, 0.7], [0.2, 0.3, 0.5]]),
                   "rs_seed": self.rng.randrange(1000), "rs_kind": kind}
             op["piece"] = self.rng.randrange(len(op["frac"]))
